@@ -72,6 +72,18 @@ where
             None,
         );
 
+        // The same message can come round again: a second wrapper around the same ciphertext,
+        // or the original event offered again after a rollback restored the ratchet state (and
+        // invalidated the record of its first processing). The id is the hash of the content,
+        // so a stored, valid copy is this very message: keep it as it is - wrapper id and
+        // processed_at included - and only remember the wrapper.
+        if let Some(existing) = self.get_message(&group.mls_group_id, &rumor_id)?
+            && existing.state == message_types::MessageState::Processed
+        {
+            self.save_processed_message_record(processed_message)?;
+            return Ok(existing);
+        }
+
         let now = Timestamp::now();
         let message = message_types::Message {
             id: rumor_id,
